@@ -402,6 +402,7 @@ void CondvarCase(Ctx& ctx) {
   bool notify_all = ctx.rng.Coin();
   u32 dur = ctx.rng.Below(3) == 0 ? ctx.rng.Below(120) : 2000 + ctx.rng.Below(2000);
   u32 njit = ctx.rng.Below(8);
+  u32 hold = ctx.rng.Below(4);
   static const char* const kForm[] = {"wait", "wait(pred)", "wait_for", "wait_for(pred)", "wait_until", "wait_until(pred)"};
   ctx.Note("condition_variable %s x%d waiters, %s after %u yields, timeout %u ns", kForm[form], nw,
            notify_all ? "notify_all" : "notify_one per waiter", njit, dur);
@@ -458,6 +459,11 @@ void CondvarCase(Ctx& ctx) {
         if (pred_result[k] == 1 && !flag) {
           ctx.Fail("pred-true-but-false", "C18", "%s returned true/returned although the predicate is false", kForm[form]);
         }
+        // the timed predicate forms return pred(): we own the lock here, so `flag` is exactly what pred() yields
+        if (pred_result[k] == 0 && flag) {
+          ctx.Fail("pred-false-but-true", "C18", "%s returned false although the predicate is true under the waiter's lock",
+                   kForm[form]);
+        }
         ++woke;
         --waiting;
       });
@@ -477,6 +483,9 @@ void CondvarCase(Ctx& ctx) {
         int blocked_now = waiting;
         if (blocked_now != 0) {
           flag = true;
+          for (u32 h = 0; h < hold; ++h) {
+            yaclib_std::this_thread::yield();
+          }
           lk.unlock();
           if (notify_all) {
             cv.notify_all();
